@@ -106,6 +106,46 @@ def split_output(out, so, se, terminated):
     return ls[:a[0] + 1], ls[a[0] + 1:b[0]], ls[b[0]:]
 
 
+OPENERS = {'(': ')', '[': ']'}
+NO_START = {'else', 'while', 'catch', 'finally', '{', ')', ']', ',', ';', '?', ':', '=', '.', '->', '&&', '||', '+', '-', '*', '/'}
+
+
+def statement_points(data, lang):
+    """Insertion points that are statement boundaries: the previous code token is ';', '{' or '}', no '(' or '[' is open, the previous
+    line carries no trailing comment and the next code token does not continue a statement."""
+    toks = [t for t in lex.lex(data, lang)]
+    pts = set(insertion_points(data, lang))
+    starts = lex.line_starts(data)
+    import bisect
+    depth = 0
+    prev_code = None
+    prev_any = None
+    ok_before = {}     # line index -> bool (state at the first token of that line)
+    first_tok = {}
+    for t in toks:
+        li = bisect.bisect_right(starts, t.start) - 1
+        if li not in ok_before:
+            ok_before[li] = (depth == 0 and prev_code is not None and prev_code.text in (';', '{', '}') and not prev_code.in_dir
+                             and (prev_any is prev_code))
+            first_tok[li] = t
+        if t.kind == 'comment':
+            prev_any = t
+            continue
+        if t.kind in ('dir', 'eod'):
+            continue
+        if t.kind == 'punct' and t.text in OPENERS:
+            depth += 1
+        elif t.kind == 'punct' and t.text in (')', ']'):
+            depth = max(0, depth - 1)
+        prev_code = t
+        prev_any = t
+    out = []
+    for k in sorted(pts):
+        if ok_before.get(k) and first_tok[k].kind != 'comment' and first_tok[k].text not in NO_START and not first_tok[k].in_dir:
+            out.append(k)
+    return out
+
+
 def insertion_points(data, lang):
     """Line indices k such that a region may be inserted before physical line k: the line starts outside any comment, literal and
     directive, and the previous line does not end in a comment/literal or a backslash."""
@@ -189,13 +229,18 @@ def classify_alteration(want, got, i):
     w = want[i] if i < len(want) else None
     g = got[i] if i < len(got) else None
     if w is None:
-        return 'line-added'
+        return 'token-line-added' if g is not None and g.strip(b' \t') in (b'{', b'}', b'(', b')', b';', b',') else 'line-added'
     if g is None:
         return 'line-lost'
     if g.startswith(w) and g[len(w):].strip(b' \t') == b';':
         return 'semicolon-appended'
-    if g.startswith(w) and g[len(w):].strip(b' \t') in (b'{', b'}', b'(', b')', b'int', b',', b'return', b'break;', b'else'):
+    LONE = (b'{', b'}', b'(', b')', b'int', b',', b'return', b'break;', b'else', b';')
+    if g.startswith(w) and g[len(w):].strip(b' \t') in LONE:
         return 'token-appended'
+    if g.endswith(w) and g[:-len(w)].strip(b' \t') in LONE:
+        return 'token-prepended'
+    if g.strip(b' \t') in LONE and i + 1 < len(got) and got[i + 1] == w:
+        return 'token-line-added'
     if g.replace(b' ', b'') == w.replace(b' ', b'') and b'>' in w:
         return 'angle-split'
     sq = lambda b: re.sub(rb'[ \t]', b'', b)
@@ -451,7 +496,7 @@ def check(ctx):
                 key = kind
             elif kind.startswith('opacity') or len(small) > 3:
                 key = '%s|%s' % (kind, r['cid'])
-            if r['cid'].split(':')[-1].startswith('sql/') or ':sql/' in r['cid']:
+            if kind.startswith('region-line-altered') and ':sql/' in r['cid']:
                 key = '%s|embedded-sql' % kind
             if key in seen:
                 continue
@@ -475,7 +520,7 @@ def _resolve_and_run(t):
         host = SPLIT.sub(b'\n', corpus.read(hostspec[1]))
         if b'INDENT-O' in host or b'asm' in host or b'\x00' in host or host[:2] in (b'\xff\xfe', b'\xfe\xff') or b'NOFMT' in host or b'fmt:o' in host:
             return None
-        pts = insertion_points(host, lang)
+        pts = statement_points(host, lang)
         if not pts:
             return None
         k = pts[int(k * len(pts)) % len(pts)]
